@@ -49,11 +49,12 @@ func (x *Exec) fnEffects(fn *ssa.Function, e *Effects, visited map[*ssa.Function
 			if m == "*" {
 				e.Top = true
 			} else {
-				e.Classes[m] = true
+				e.Classes[resolveClass(u, m)] = true
 			}
 		}
 		return
 	}
+	x.curEffFn = fn
 	if fn.Blocks == nil {
 		if !inModule(fn) {
 			return // foreign code: handled per call site from its arguments
@@ -193,7 +194,7 @@ func (x *Exec) callEffects(cc *ssa.CallCommon, e *Effects, visited map[*ssa.Func
 					if m == "*" {
 						e.Top = true
 					} else {
-						e.Classes[m] = true
+						e.Classes[resolveClass(u, m)] = true
 					}
 				}
 				return
@@ -230,8 +231,11 @@ func (x *Exec) staticCallEffects(f *ssa.Function, cc *ssa.CallCommon, e *Effects
 	name := f.String()
 	switch {
 	case strings.HasPrefix(name, "(*sync.Mutex)."), strings.HasPrefix(name, "(*sync.RWMutex)."):
+		if x.curEffFn != nil && x.noLockHavoc(x.curEffFn) {
+			return
+		}
 		e.Locks = true
-		if strings.HasSuffix(name, "Lock") && !strings.HasSuffix(name, "Unlock") {
+		if strings.HasSuffix(name, "Lock") && !strings.HasSuffix(name, "Unlock") && !(x.curEffFn != nil && x.noLockHavoc(x.curEffFn)) {
 			e.Top = true // acquiring a lock exposes changes by other goroutines
 		}
 		return
